@@ -98,6 +98,20 @@ PREFIX.update({
     'b20.stale': ('bob', (2, 0), lambda: [W.p_create()], {'time_stamp': W.T0 - 1000}),
     'b13.async': ('bob', (1, 3), lambda: [W.p_locate()], {'async_indicator': True}),
 })
+# requests populating OPTIONAL parts of the encoding that ordinary clients leave empty (attributes embedded
+# in a Key Value, a wrapped key with every wrapping-data field): whatever the decoder keeps of them may
+# not show in the answers to later requests
+
+
+def _register_embedded():
+    secret = W.OBJ_FACTORY.convert(W.pie_symmetric(b'\x3c' * 16))
+    secret.key_block.key_value.attributes = [
+        W.attr(W.AT.CONTACT_INFORMATION, 'embedded@example.org'), W.attr(W.AT.NAME, 'embedded', 0)]
+    return [(E.Operation.REGISTER, W.payloads.RegisterRequestPayload(
+        object_type=E.ObjectType.SYMMETRIC_KEY, template_attribute=W.template([]), managed_object=secret))]
+
+
+PREFIX['a14.register_embedded'] = ('alice', (1, 4), _register_embedded, {})
 # the identifier family: the same object read, changed and destroyed under its canonical identifier and
 # under other spellings the server accepts for it ('05', ' 5'); whatever an engine remembers about an
 # object may not outlive what later requests do to it
